@@ -211,11 +211,45 @@ def s4_theories():
     return out
 
 
+S5_PREMISES = [
+    (["p(f(x))"], 1), (["q(f(x), y)"], 2), (["q(x, f(x))"], 1), (["q(f(x), f(y))"], 2), (["q(f(x), f(x))"], 1),
+    (["t(f(x), m(x, y), c())"], 2), (["f(f(x)) = x"], 1), (["f(f(x)) = y"], 2), (["m(f(x), f(y)) = z"], 3),
+    (["f(x) = f(y)"], 2), (["m(x, y) = m(y, x)"], 2), (["f(c()) = x"], 1), (["p(m(x, x))"], 1),
+    (["q(m(x, y), m(y, x))"], 2), (["m(x, f(x)) = x"], 1), (["m(m(x, y), z) = x"], 3), (["p(f(f(f(x))))"], 1),
+    (["q(x, y)", "p(f(y))"], 2), (["p(x)", "f(x) = f(y)", "p(y)"], 2), (["f(x)!", "p(x)"], 1), (["m(x, y)!", "q(y, x)"], 2),
+    (["q(c(), x)"], 1), (["t(x, c(), f(c()))"], 1), (["m(c(), c()) = x"], 1),
+]
+
+
+def s5_theories():
+    """S5 (nested terms in premises): function applications nested in predicate arguments and in each other, equalities
+    between applications, definedness atoms; witness conclusions as in S1."""
+    out = []
+    for start in range(0, len(S5_PREMISES), BUNDLE):
+        chunk = S5_PREMISES[start:start + BUNDLE]
+        k = start // BUNDLE
+        name = f"s_nest_{'abcdefghijklmnopqrstuvwxyz'[k // 26]}{'abcdefghijklmnopqrstuvwxyz'[k % 26]}"
+        lines = list(SIG)
+        body, wit = [], []
+        for ri, (atoms, nv) in enumerate(chunk):
+            w = f"w{'abcd'[ri]}"
+            wit.append(w)
+            lines.append(f"pred {w}({WITNESS[nv]});")
+            body.append(f"rule r{'abcd'[ri]} {{")
+            body += [f"    if {a};" for a in atoms]
+            body += [f"    then {w}({', '.join(VARS[:nv])});", "}"]
+        import re
+        used = sorted({m for atoms, _ in chunk for a in atoms for m in re.findall(r"\b([pqtcfmz])\(", a)}, key=ORDER.index)
+        meta = {"no_insert": wit, "menu_rels": used, "sweep": "S5", "max_defines": 1}
+        out.append((name, "//@ " + json.dumps(meta) + "\n" + "\n".join(lines + body) + "\n"))
+    return out
+
+
 def main():
     root = os.path.dirname(os.path.dirname(os.path.abspath(__file__)))
     d = os.path.join(root, "corpus", "s")
     os.makedirs(d, exist_ok=True)
-    want = dict(bundle_theories() + s2_candidates() + s3_theories() + s4_theories())
+    want = dict(bundle_theories() + s2_candidates() + s3_theories() + s4_theories() + s5_theories())
     for f in os.listdir(d):
         if f.endswith(".eql") and f[:-4] not in want:
             os.unlink(os.path.join(d, f))
